@@ -245,6 +245,11 @@ def families(thorough):
         for b in (['select'], ['P', 'B', 'E', 'S'], ['begin', 'select', 'commit']):
             s.append(Case(a, stop='eof', second=b))
             s.append(Case(a, stop='eof', second=b, mode='session'))
+    # a client whose batch the pooler abandons half-way (it binds a statement it has just closed): what it entered into the connection's
+    # statement cache must not hurt the next client that prepares the same text
+    for a in (['Ps', 'Cs', 'Bs', 'S'], ['Ps', 'Ps2', 'Cs2', 'Bs2', 'S']):
+        for b in (['Ps', 'Bs', 'E', 'S'], ['Ps2', 'Bs2', 'E', 'S']):
+            s.append(Case(a, stop='eof', cache=4, second=b))
     for a in (['hugesel'], ['bigsel'], ['Phuge', 'B', 'E', 'S'], ['copyin_big', 'd', 'c']):
         for stop in ('X', 'eof'):
             s.append(Case(a, stop=stop, second=['select']))
